@@ -103,7 +103,7 @@ def specIter (t : Ty) (v : Val) : String :=
 
 def isHistOp (n : String) : Bool :=
   ["begin", "mk", "get", "val", "copy", "set", "setv", "app", "pop", "chg", "obs", "len", "rd",
-   "snap", "chk", "memo", "hcount", "sum", "iter", "rset", "rtxt", "blen", "appd", "setd", "appv", "obsg", "iterget", "rehash", "iter2"].contains n
+   "snap", "chk", "memo", "hcount", "sum", "iter", "rset", "rtxt", "blen", "appd", "setd", "appv", "obsg", "iterget", "rehash", "iter2", "setu", "appu", "chgu"].contains n
 
 /-- PROP verdict of an operation of the two machines: the implementation's observation must be
     what the plain value machine says.  On a summarised backing (C12) an error is acceptable
@@ -140,7 +140,14 @@ def both (s : HState) (op : Op) (impl : List String) (newName : Option String :=
     | none => s2
   (s3.align, render om, if skipV then "ok" else verdict s.partialTree impl ov)
 
-def step (s : HState) (name : String) (args impl : List String) : Except String (HState × String × String) := do
+def step (s : HState) (name0 : String) (args impl : List String) : Except String (HState × String × String) := do
+  -- setu / appu / chgu: the inserted value was never hashed; same machines, but the hash-call
+  -- bound of C07 (premise: inserted values are hashed) is dropped until the next count
+  let unhashed := ["setu", "appu", "chgu"].contains name0
+  let name := if unhashed then (name0.take 3).toString else name0
+  let r ← stepH s name args impl
+  return if unhashed then ({ r.1 with bound := none }, r.2.1, r.2.2) else r
+where stepH (s : HState) (name : String) (args impl : List String) : Except String (HState × String × String) := do
   let withId (h : String) (k : Nat → Except String (HState × String × String)) :
       Except String (HState × String × String) :=
     match s.id? h with
